@@ -20,6 +20,8 @@ R-C05.3  short-circuit forms never reach the expression compiler (the synthesise
          for BoolOp / IfExp / NamedExpr raise internal errors; ExprBuilder lifts them).
 R-C05.4  compilers visit the parts of a node in field (= evaluation) order: callee before
          arguments, elements left to right.
+R-C05.6  checker desugarings that reorder operands: reflected operator fallback, subscripts on non-place values
+         (c05_order.py, below).
 Not decided: order edges of the emitted HUGR, behaviour after a panic.
 """
 
@@ -209,9 +211,46 @@ def interpret_branch(idx, rec: Recorder, node: Tok, builder_cls, expr_cls, value
         # value context: ExprBuilder.visit_X(self, node) with self.bb = entry; result = (returned node, final self.bb)
         eself = Tok("exprbuilder", cfg=cfg, bb=entry, __classes__=[expr_cls], __ident__=True)
         params = [a.arg for a in value_visitor.node.args.args]
-        env.update({params[0]: eself, params[1]: node})
+
+        def h_evisit(node_, e, env_):
+            # ExprBuilder.visit(child): visit_<Class> of ExprBuilder, else its generic_visit
+            n = e.ev(node_.args[0], env_)
+            if not isinstance(n, Tok):
+                return n
+            m = expr_cls.methods.get(f"visit_{n.attrs.get('__class__')}") or expr_cls.methods.get("generic_visit")
+            ps_ = [a.arg for a in m.node.args.args]
+            new_ = {k: v for k, v in env_.items() if callable(v)}
+            new_.update({ps_[0]: eself, ps_[1]: n})
+            if e.depth > 50:
+                raise Unsupported("visit depth")
+            e.depth += 1
+            try:
+                o = e.run(m.node.body, new_)
+            finally:
+                e.depth -= 1
+            if o[0] == "raise":
+                raise Raised(str(o[1]), str(o[1]))
+            return o[1] if o[0] == "return" else None
+
+        def h_nt_generic(node_, e, env_):
+            # ast.NodeTransformer.generic_visit: children are visited in field order and replaced by the results
+            n = e.ev(node_.args[0], env_)
+            for fld in n.attrs.get("_fields", ()):
+                v = n.attrs.get(fld)
+                call_ = ast.parse("self.visit(__child)").body[0].value
+                if isinstance(v, list):
+                    n.attrs[fld] = [h_evisit(call_, e, {**env_, "__child": x}) if isinstance(x, Tok) else x for x in v]
+                elif isinstance(v, Tok):
+                    n.attrs[fld] = h_evisit(call_, e, {**env_, "__child": v})
+            return n
+
+        env.update({params[0]: eself, params[1]: node, "self.visit": h_evisit, "super().generic_visit": h_nt_generic})
         out = ev.run(value_visitor.node.body, env)
-        rec.result = (out[1] if out[0] == "return" else None, eself.attrs["bb"])
+        res_node = out[1] if out[0] == "return" else None
+        # whatever is left of the expression is evaluated where the caller puts it: in the final block, left to right
+        for l in leaves(res_node):
+            rec.events.append(("build", l, eself.attrs["bb"].name))
+        rec.result = (res_node, eself.attrs["bb"])
         return rec
     # generic_visit of BranchBuilder: builds the node as an expression and branches on it
     call = ast.parse("self.visit(node, bb, t, f)").body[0].value
@@ -344,6 +383,32 @@ def run(ctx: Ctx) -> None:
         except (Unsupported, Raised, KeyError, IndexError, AttributeError, TypeError) as e:
             ctx.undecided("R-C05.1", key, ve.where, f"{type(e).__name__}: {e}")
 
+    # ---- a sub-expression that needs control flow, to the RIGHT of a sibling: ExprBuilder lifts it into earlier blocks
+    class _Drive:  # a two-line driver `return self.visit(node)` run as if it were a method of ExprBuilder
+        node = ast.parse("def _drive(self, node):\n    return self.visit(node)").body[0]
+    def leaf(nm):
+        return mk_ast("Operand", nm, __ident__=True, _fields=())
+    lifted_forms = {
+        "conditional expression": lambda: mk_ast("IfExp", "ifexp", test=leaf("opd1"), body=leaf("opd2"), orelse=leaf("opd3"), _fields=("test", "body", "orelse")),
+    }
+    for form, mk in lifted_forms.items():
+        key = f"{eb_cls.qualname}#left-sibling-before-lifted-{form.replace(' ', '-')}"
+        node = mk_ast("Tuple", "tuple", elts=[leaf("opd0"), mk()], _fields=("elts",))
+        rec = Recorder()
+        try:
+            interpret_branch(idx, rec, node, bb_cls, eb_cls, value_visitor=_Drive)
+            bad = []
+            for t in (False, True):
+                seq, _end = rec.simulate("bb1", lambda pred, t=t: t)
+                want = ["opd0", "opd1", "opd2" if t else "opd3"]
+                if seq != want:
+                    bad.append({"condition": t, "evaluated": seq, "python_evaluates": want})
+            ctx.check(not bad, "R-C05.1", key, eb_cls.where, {"expression": "(opd0, opd2 if opd1 else opd3)", "disagreements_with_python": bad, "edges": rec.edges},
+                      f"in `f() + (g() if c() else h())` (any enclosing expression) the {form} is lifted into blocks that run BEFORE the "
+                      "part of the expression that stays behind: operands to its left are evaluated after it")
+        except (Unsupported, Raised, KeyError, IndexError, AttributeError, TypeError) as e:
+            ctx.undecided("R-C05.1", key, eb_cls.where, f"{type(e).__name__}: {e}")
+
     # ---- desugarings in the checker that reuse an operand
     va = idx.method("StmtChecker", "visit_AugAssign", "guppylang_internals.checker.stmt_checker")
     uses = [n for n in walk_no_nested(va.node) if isinstance(n, ast.Attribute) and ast.unparse(n) == "node.target" and isinstance(n.ctx, ast.Load)]
@@ -461,3 +526,8 @@ def run(ctx: Ctx) -> None:
                   "the parts of this node are compiled in another order than Python evaluates them (e.g. arguments before the callee): "
                   "side effects in them run out of order")
     ctx.floor("R-C05.4", "compilers with several evaluated fields", n_checked, 2)
+
+    # ------------------------------------------------------------ R-C05.6 checker desugarings that reorder operands
+    from . import c05_order
+    c05_order.run(ctx)
+
